@@ -113,6 +113,19 @@ type storeView interface {
 
 var idStyles = []string{"plain", "b64std", "b64url", "hex", "uuid", "percent"}
 
+// idLengths: lengths a KeyGenerator may produce (16 hex bytes … 32 random bytes in hex = 64 …).
+var idLengths = []int{16, 36, 63, 64, 65, 128, 256}
+
+// sizedID pads the styled id with characters legal in every alphabet up to length n (ids that
+// are naturally longer stay as they are).
+func sizedID(style string, n int, tag string, length int) string {
+	id := styledID(style, n, tag)
+	for i := 0; len(id) < length; i++ {
+		id += string(tag[i%len(tag)])
+	}
+	return id
+}
+
 func styledID(style string, n int, tag string) string {
 	switch style {
 	case "b64std": // '+', '/', '=' as in base64.StdEncoding
